@@ -5,6 +5,11 @@ VERIF = os.path.dirname(os.path.dirname(os.path.abspath(__file__)))
 REPO = os.environ.get("VERIF_REPO", "/repo")
 COQ = os.path.join(VERIF, "coq")
 BUILD = os.path.join(VERIF, "build")
+# evidence and replays of runs against another tree (VERIF_REPO: seeded changes held in a scratch
+# worktree) are kept apart from those of /repo
+_ALT = "VERIF_REPO" in os.environ and os.path.realpath(REPO) != "/repo"
+EVDIR = os.path.join(BUILD, "alt", "evidence") if _ALT else os.path.join(VERIF, "evidence")
+RPDIR = os.path.join(BUILD, "alt", "replays") if _ALT else os.path.join(VERIF, "replays")
 GOENV = dict(os.environ, GOFLAGS="-mod=mod", GOPROXY="off", GOSUMDB="off", GOTOOLCHAIN="local",
              CGO_ENABLED="0")
 FORBIDDEN = re.compile(r"\b(Admitted|admit|Axiom|Axioms|Parameter|Parameters|Conjecture|Conjectures|"
@@ -307,8 +312,8 @@ def main(argv):
             tier = rp.get("tier", tier)
             replay_sig = rp.get("signature")
     t0 = time.time()
-    os.makedirs(os.path.join(VERIF, "evidence"), exist_ok=True)
-    os.makedirs(os.path.join(VERIF, "replays"), exist_ok=True)
+    os.makedirs(EVDIR, exist_ok=True)
+    os.makedirs(RPDIR, exist_ok=True)
     known = load_known()
 
     broken = []          # names of theorem files / correspondence streams that no longer check
@@ -432,13 +437,13 @@ def main(argv):
             if f["signature"] in seen:
                 continue
             seen.add(f["signature"])
-            rp = os.path.join(VERIF, "replays", "%s-%d-%d.json" % (pid, seed, len(seen)))
+            rp = os.path.join(RPDIR, "%s-%d-%d.json" % (pid, seed, len(seen)))
             json.dump({"property": pid, "stream": stream, "seed": seed, "tier": tier, "signature": f["signature"],
                        "what": f["what"], "case": f["input"], "observed": f.get("observed"),
                        "expected": f.get("expected"), "broken": broken or None}, open(rp, "w"), indent=1, ensure_ascii=False)
             violation_lines.append("VIOLATION property=%s replay=%s" % (pid, rp))
     elif broken:
-        rp = os.path.join(VERIF, "replays", "%s-%d-broken.json" % (pid, seed))
+        rp = os.path.join(RPDIR, "%s-%d-broken.json" % (pid, seed))
         json.dump({"property": pid, "seed": seed, "tier": tier, "case": None, "broken": broken,
                    "note": "a proof obligation or the model/implementation correspondence no longer checks; "
                            "the failing-input search over the same generators found no input on which the property itself fails"},
@@ -485,7 +490,7 @@ def main(argv):
     ev = {"property_id": pid, "tier": tier, "seed": seed, "level": level, "coverage": cov,
           "assumptions": spec.get("assumptions", []), "wall_s": round(time.time() - t0, 2),
           "violations": len(violation_lines)}
-    json.dump(ev, open(os.path.join(VERIF, "evidence", pid + ".json"), "w"), indent=1, ensure_ascii=False)
+    json.dump(ev, open(os.path.join(EVDIR, pid + ".json"), "w"), indent=1, ensure_ascii=False)
 
     for l in violation_lines:
         print(l)
